@@ -56,12 +56,22 @@ Theorem c09_lex_order :
   (forall a b c, spec_lt a b -> spec_lt b c -> spec_lt a c) /\
   (forall a b, spec_lt a b \/ a = b \/ spec_lt b a) /\
   (forall a b, spec_le a b <-> (spec_lt a b \/ a = b)).
-Proof.
-  split; [exact spec_of_components|]. split; [exact spec_ltb_lex|].
-  split; [intros a H; unfold spec_lt in H; rewrite spec_ltb_irrefl in H; discriminate|].
-  split; [exact spec_ltb_trans|]. split; [exact spec_trichotomy|exact spec_le_iff].
-Qed.
+Proof. exact lex_order_all. Qed.
 Print Assumptions c09_lex_order.
+
+(* The property words the third component as "how many kinds of amount, date, source or field constraints it USES".
+   [kinds_used] counts the constraint keywords that occur as identifiers outside quoted pattern text; the code's
+   [constraint_kinds] counts keyword SUBSTRINGS of the whole expression text.  Full statement, refutation
+   (contains("HOLIDAY") has the substring day), and the exact characterisation that does hold: *)
+Definition c09_constraint_kinds_are_kinds_used_statement : Prop := constraint_kinds_are_kinds_used_statement.
+Theorem c09_constraint_kinds_are_kinds_used_refuted : ~ c09_constraint_kinds_are_kinds_used_statement.
+Proof. exact constraint_kinds_are_kinds_used_refuted. Qed.
+Print Assumptions c09_constraint_kinds_are_kinds_used_refuted.
+Theorem c09_constraint_kinds_partial :
+  forall r, snd (fst (spec_of r)) =
+            Z.of_nat (length (filter (fun kw => contains (lower (r_match r)) kw) constraint_keywords)).
+Proof. exact constraint_kinds_partial. Qed.
+Print Assumptions c09_constraint_kinds_partial.
 
 (* exact ties go to the earlier rule *)
 Theorem c09_ties_to_earlier :
@@ -74,10 +84,7 @@ Print Assumptions c09_ties_to_earlier.
 (* the split of a list at its first maximum is unique: "the most specific matching rule" is well defined *)
 Theorem c09_first_max_unique :
   forall l w1 w2, first_max l w1 -> first_max l w2 -> w1 = w2.
-Proof.
-  intros l w1 w2 (b1 & a1 & E1 & B1 & A1) (b2 & a2 & E2 & B2 & A2).
-  destruct (first_max_unique b1 l w1 w2 a1 b2 a2 E1 B1 A1 E2 B2 A2) as (_ & E & _). exact E.
-Qed.
+Proof. exact first_max_unique_winner. Qed.
 Print Assumptions c09_first_max_unique.
 
 (* order independence: without ties among the matching categorizing rules and among the matching
@@ -105,7 +112,7 @@ Theorem c09_tags_union :
   forall (o : oracle) (rules : list rule) (res : result) (t : string),
     engine_match MostSpecific rules o = Res res ->
     (In t (tags res) <-> exists r, In r rules /\ o_cond o r = RTrue /\ In t (rtags o r)).
-Proof. intros o rules res t. exact (tags_union o MostSpecific rules res t). Qed.
+Proof. exact (fun o => tags_union o MostSpecific). Qed.
 Print Assumptions c09_tags_union.
 
 (* ------------------------------------------------------------------------------------------------- *)
@@ -157,3 +164,16 @@ Proof.
   - repeat constructor; cbn; intuition congruence.
   - intros H. inversion H as [|? ? _ H1]. inversion H1 as [|? ? N _]. apply N. cbn. tauto.
 Qed.
+
+(* the two listed findings in the model: pattern text HOLIDAY counts as a `day` constraint and beats a longer pattern;
+   `weekday` counts as two kinds and beats an earlier rule with one amount constraint *)
+Example c09_example_substring_counting :
+  kinds_used "contains(""HOLIDAY"")" = 0%Z /\ constraint_kinds "contains(""HOLIDAY"")" = 1%Z /\
+  kinds_used "contains(""UBER"") and weekday >= 0" = 1%Z /\ constraint_kinds "contains(""UBER"") and weekday >= 0" = 2%Z /\
+  kinds_used "field.memo == ""today"" and amount > 5 and txn.date > '2025-01-01'" = 3%Z /\
+  match engine_match MostSpecific [xr 0 "contains(""HOLIDAY"")" "Travel" "" 50; xr 1 "contains(""INN EXPRESS"")" "Lodging" "" 50] all_true,
+        engine_match MostSpecific [xr 0 "contains(""UBER"") and amount > 5" "CatA" "" 50; xr 1 "contains(""UBER"") and weekday >= 0" "CatB" "" 50] all_true with
+  | Res a, Res b => category a = "Travel" /\ category b = "CatB"
+  | _, _ => False
+  end.
+Proof. vm_compute. repeat split; reflexivity. Qed.
